@@ -7,7 +7,7 @@ set -e
 patch=$(readlink -f "$1"); prop=$2; budget=${3:-60}
 wt=$(mktemp -d /tmp/seeded-wt-XXXXXX)
 rmdir "$wt"
-git -C /repo worktree add -f "$wt" HEAD >/dev/null 2>&1
+git -C /repo worktree add -f "$wt" ${SEEDED_BASE:-HEAD} >/dev/null 2>&1
 trap 'git -C /repo worktree remove --force "$wt" >/dev/null 2>&1 || rm -rf "$wt"' EXIT
 git -C "$wt" apply "$patch"
 cd "$(dirname "$0")/.."
